@@ -166,7 +166,7 @@ def modelledCodesB' : List String :=
 
 def modelledCodesC : List String :=
   ["0001", "000E", "0150", "01D0", "01E9", "042F", "0B04", "1098", "10B0", "10D0", "10E1", "10E2", "11F0", "1280", "1290", "1298",
-   "12A0", "12C0", "12C8", "1470", "1F70", "1FCA", "1FD0", "1FD4", "22D0", "22D9", "2389", "2400", "2401", "2420", "2D49", "2E10",
+   "12A0", "12C0", "12C8", "1470", "1F70", "1FCA", "1FD0", "1FD4", "22B0", "22D0", "22D9", "22F1", "22F7", "22F8", "2389", "2400", "2401", "2420", "2D49", "2E10",
    "3110", "3120", "3200", "3210", "3EF0", "3EF1"]
 
 def isModelled (code : List Char) : Bool := inS (modelledCodes ++ modelledCodesB' ++ modelledCodesC) code
@@ -756,6 +756,22 @@ def p3EF1 (f : Frame) : Py Parsed := do
     pure (.dict [("modulation_level", match pc with | none => .null | some v => .num false v), ("actuator_countdown", jo act),
       ("cycle_countdown", jo cyc), ("_unknown_0", .str (p.drop 12))])
 
+/-- `parser_22f1` (fan mode; the scheme is guessed from the address shape / the mode-set byte; its asserts only warn) -/
+def p22F1 (f : Frame) : Py Parsed := do
+  let p := f.payload
+  -- the first try-block compares `int(payload[2:4], 16) <= int(payload[4:], 16)` when there is a third byte
+  if p.drop 4 ≠ [] && inS ["00", "63"] (p.take 2) then do
+    let _ ← pyInt16 (slice p 2 4)
+    let _ ← pyInt16 (p.drop 4)
+  let (tbl, scheme) :=
+    if f.a0 = nonId then (Gen.fanModeItho, "itho")
+    else if slice p 4 6 = s "0A" then (Gen.fanModeNuaire, "nuaire")
+    else (Gen.fanModeOrcon, "orcon")
+  let n ← pyInt16 (slice p 2 4)
+  let mode := match lookupS tbl (slice p 2 4) with | some m => m.toList | none => s "unknown_" ++ slice p 2 4
+  pure (.dict [("fan_mode", .str mode), ("_scheme", .str scheme.toList), ("_mode_idx", .str (fmtHex 2 (n % 16))),
+    ("_mode_max", if slice p 4 6 = [] then .null else .str (slice p 4 6))])
+
 def parserC (f : Frame) : Option (Py Parsed) :=
   let p := f.payload
   let code := f.code
@@ -802,6 +818,15 @@ def parserC (f : Frame) : Option (Py Parsed) :=
     let n ← pyInt16 (p.drop 2)
     pure (.dict [("ticker", jNat n)]))
   else if code = s "22D0" then some (p22D0 f)
+  else if code = s "22B0" then some (.ok (.dict [("enabled", if slice p 2 4 = s "06" then .bool false else if slice p 2 4 = s "05" then .bool true else .null)]))
+  else if code = s "22F1" then some (p22F1 f)
+  else if code = s "22F7" then some (
+    let bm : Json := if slice p 2 4 = s "00" then .str (s "off") else if slice p 2 4 = s "C8" then .str (s "on") else if slice p 2 4 = s "FF" then .str (s "auto") else .null
+    let r : Dict := [("bypass_mode", bm)]
+    if f.verb ≠ vW || ¬ (p.drop 4 = [] || p.drop 4 = s "EF") then
+      .ok (.dict (r ++ [("bypass_state", if p.drop 4 = s "00" then .str (s "off") else if p.drop 4 = s "C8" then .str (s "on") else .null)]))
+    else .ok (.dict r))
+  else if code = s "22F8" then some (.ok (.dict [("value_02", .str (slice p 2 4)), ("value_04", .str (slice p 4 6))]))
   else if code = s "22D9" then some ((optTemp "setpoint" (slice p 2 6)).map .dict)
   else if code = s "2389" then some ((optTemp "_unknown" (slice p 2 6)).map .dict)
   else if code = s "2400" then some (.ok (.dict [("payload", .str p)]))
